@@ -101,3 +101,18 @@ def ambiguous_prio(c):
         if not oracle.is_leaf(x):
             tags.setdefault(x.id, set()).add(getattr(x, "prio", None))
     return any(len(v) > 1 for v in tags.values())
+
+
+def narrow(v, unsigned_ok=False):
+    """the value as the narrowest numpy fixed-width integer that holds it (callers hand numpy scalars of any width to the
+    library: rows of int16 arrays, results of numpy arithmetic, ...)"""
+    import numpy as np
+    v = int(v)
+    if unsigned_ok and v >= 0:
+        for t in (np.uint8, np.uint16, np.uint32, np.uint64):
+            if v <= np.iinfo(t).max:
+                return t(v)
+    for t in (np.int8, np.int16, np.int32, np.int64):
+        if np.iinfo(t).min <= v <= np.iinfo(t).max:
+            return t(v)
+    return v
